@@ -92,11 +92,11 @@ PROPS = {
             'lens': [(['r', 'o', 'q.rw', 'z.iw', 'z.streams.iw'], S('call:ack')), (['q.rw', 'z.iw', 'z.streams.iw'], S('frame:DATA', 'frame:SET'))]},
     'C06': {'scenarios': scen('LifeS LifeC PushC', GENERIC + ['P_C06_StreamStatesAreRfcStates']),
             'lens': [(['r', 'o', 'e'] + STATE_FSM, ANY)]},
-    'C07': {'scenarios': scen('LifeS LifeC Pair1 PushC', ['P_C07_EventsFitRole', 'P_C07_EventGrammar']),
+    'C07': {'scenarios': scen('LifeS LifeC Pair1 PushC HdrInSNoVal', ['P_C07_EventsFitRole', 'P_C07_EventGrammar']),
             'lens': [(['e'] + STATE_FSM, S('recv', 'dlv')), (['r'], S('frame:HEADERS', 'frame:DATA'))]},
     'C08': {'scenarios': scen('LifeS LifeC MiscC MiscS PushS', ['P_C08_RoleRestrictedSends', 'RaisingCallEmitsNothing']),
             'lens': [(['r', 'o'] + STATE_FSM, S('call:hdr', 'call:data', 'call:end', 'call:push', 'call:alt', 'call:prio')), (['z.conn'], ANY)]},
-    'C09': {'scenarios': scen('LifeS LifeC SetC PushC IdsC', ['P_C09_IdsIncreaseWithParity']),
+    'C09': {'scenarios': scen('LifeS LifeC SetC PushC IdsC PushS', ['P_C09_IdsIncreaseWithParity']),
             'lens': [(['q.nx', 'z.hiIn', 'z.hiOut', 'z.closed', 'z.streams.by'], ANY), (['r', 'o', 'e'], S('call:hdr', 'call:push', 'call:next', 'frame:HEADERS', 'frame:PP', 'frame:PRIO'))]},
     'C10': {'scenarios': scen('SetC SetS LifeS PushS', ['P_C10_OutboundWithinPeerLimit']),
             'lens': [(['r'], S('call:oin', 'call:oout')), (['r', 'o', 'e'], S('call:hdr', 'frame:HEADERS')), (['z.streams.st', 'z.streams', 'z.rs', 'z.ls'], ANY)]},
@@ -104,8 +104,8 @@ PROPS = {
             # "applied at once / enforced from the acknowledgement": the consumers of a setting belong to the property
             'lens': [(['r', 'o', 'e', 'z.ls', 'z.rs', 'q.mof', 'q.mif', 'q.lw', 'q.rw', 'z.hdrCap', 'z.hp', 'z.ow', 'z.streams.ow',
                        'z.streams.iw', 'z.streams.mof'], S('call:set', 'frame:SET')), (['z.ls', 'z.rs'], ANY)]},
-    'C12': {'scenarios': scen('SetS SetC CloseS PushS', ['P_C12_SettingsValidation']) + [sc('MC_SetEnumS', 2, 3, ['P_C12_SettingsValidation'])],
-            'lens': [(['r', 'o', 'e', 'q.lw', 'q.rw', 'z.streams.ow', 'z.streams.iw', 'z.ow'], S('call:set', 'frame:SET'))]},
+    'C12': {'scenarios': scen('SetS SetC CloseS PushS UpgS', ['P_C12_SettingsValidation']) + [sc('MC_SetEnumS', 2, 3, ['P_C12_SettingsValidation'])],
+            'lens': [(['r', 'o', 'e', 'q.lw', 'q.rw', 'z.streams.ow', 'z.streams.iw', 'z.ow'], S('call:set', 'frame:SET', 'call:upg'))]},
     'C13': {'scenarios': scen('Pair1 HdrOutC HdrOutS PushS TableS HdrOutCNoNorm', ['P_C13_CleanSendsDecode']),
             'lens': [(['o', 'r'], S('call:hdr', 'call:push')), (['r', 'e'], S('dlv')), (['z.hp'], ANY)]},
     'C14': {'scenarios': scen('HdrOutC HdrOutS Pair1', ['P_C14_EmittedBlocksConformant'])
@@ -120,7 +120,7 @@ PROPS = {
             'lens': [(['r', 'e', 'o'], S('frame:HEADERS', 'frame:PP'))]},
     'C16': {'scenarios': scen('LenC LenS LenC2', ['P_C16_ContentLength']),
             'lens': [(['r', 'e', 'o', 'z.streams.ecl', 'z.streams.acl', 'z.streams.meth'], S('frame:HEADERS', 'frame:DATA'))]},
-    'C17': {'scenarios': scen('CloseS HdrInS HdrInC LifeC RawS RawC HdrInSNoVal HdrInCPlain', ['OnlyKnownExceptions'])
+    'C17': {'scenarios': scen('CloseS HdrInS HdrInC LifeC RawS RawC HdrInSNoVal HdrInCPlain AltNoValC MiscC PushC', ['OnlyKnownExceptions'])
             + [sc('MC_HdrEnumInS', 2, 2, ['OnlyKnownExceptions']), sc('MC_HdrEnumInC', 2, 2, ['OnlyKnownExceptions'])],
             'lens': [(['r'], S('recv', 'dlv'))]},
     'C18': {'scenarios': scen('CloseS LifeS SetS HdrInS FrameS RawS RawC', ['P_C18_OneGoAwayWithCode', 'P_C18_SizeViolationsAreFrameSizeErrors']),
